@@ -43,10 +43,12 @@ def _from_bom_len(body, l, depth=0):
     return False
 
 
-def run(facts, out):
-    o2 = type(out)()
-    dec, _enc = ed.decode_encode_roots(facts, o2)
-    bodies, ids = ed.path_bodies(facts, dec)
+def run(facts, out, bodies=None):
+    fixture = bodies is not None
+    if bodies is None:
+        o2 = type(out)()
+        dec, _enc = ed.decode_encode_roots(facts, o2)
+        bodies, ids = ed.path_bodies(facts, dec)
     n_consume = 0
     n_fill = 0
     for b in bodies:
@@ -178,6 +180,8 @@ def run(facts, out):
                         {'buffer': '_%d' % bl})
     out.add('IC', facts.crate, 'inventory', 'crate', True, '',
             {'consume_calls': n_consume, 'reader_fill_calls': n_fill, 'trivial': True}, ordinal=False)
+    if fixture:
+        return
     out.anchor('IC', 'reader fill calls on the decode path', n_fill >= 1, '%d' % n_fill)
     # entry points are thin wrappers
     for name in ('decode::from_bytes', 'decode::from_str', 'decode::from_path'):
